@@ -1236,6 +1236,11 @@ def expires_after(
     )
 
     def cache_validation_callback(metadata):
+        if "time" not in metadata:
+            # metadata.json is missing or unreadable (the writer was killed, or
+            # has not yet run, between storing the result and its metadata):
+            # the age is unknown, the entry is not valid.
+            return False
         computation_age = time.time() - metadata["time"]
         return computation_age < delta.total_seconds()
 
